@@ -32,6 +32,8 @@ var polluters = map[string]string{
 	"incNum":    "以数值（自增：5）\n输出数值\n",
 	"redefExc":  "如何新建异常？\n    输入文\n    （显示：“user-ctor”）\n输出1\n",
 	"redefLib":  "导入《@测试》\n如何新建HTTP请求？\n    输入甲、乙\n    其方法 = “HACK”\n输出1\n",
+	// the library type reached through a variable that holds the type object
+	"redefLibAlias": "导入《@测试》\n令T = HTTP请求\n如何改？\n    如何新建T？\n        输入甲、乙\n        其方法 = “HACK”\n    输出1\n（改）\n令物 = （新建HTTP请求：“GET”、“u”）\n输出物之方法\n",
 	"mutLib":    "导入《@测试》\n令物 = （新建HTTP请求：“GET”、“u”）\n以{物之头部}（写入：“x”、“1”）\n物之头部#“y” = 2\n输出物之头部\n",
 	"failDeep":  "如何F1？\n    输出（F2）\n如何F2？\n    输出（F3）\n如何F3？\n    输出1 / 0\n输出（F1）\n",
 	"declare":   "令X = 1\n令Y恒为2\n如何试名？\n    输出“polluted”\n定义某类：\n    其p = 1\n输出X\n",
